@@ -14,7 +14,9 @@ import numpy as np
 from odl.operator.operator import (
     Operator, OperatorComp, OperatorLeftScalarMult, OperatorRightScalarMult,
     OperatorRightVectorMult, OperatorSum, OperatorPointwiseProduct)
-from odl.operator.default_ops import (IdentityOperator, ConstantOperator)
+from odl.operator.default_ops import (
+    IdentityOperator, ConstantOperator, MultiplyOperator)
+from odl.set import Field
 from odl.solvers.nonsmooth import (proximal_arg_scaling, proximal_translation,
                                    proximal_quadratic_perturbation,
                                    proximal_const_func, proximal_convex_conj)
@@ -204,6 +206,11 @@ class Functional(Operator):
         -------
         derivative : `Operator`
         """
+        if isinstance(self.domain, Field):
+            # The gradient in a point of a field is a number, the derivative
+            # is the multiplication with that number.
+            return MultiplyOperator(self.gradient(point),
+                                    domain=self.domain, range=self.range)
         return self.gradient(point).T
 
     def translated(self, shift):
